@@ -8,7 +8,7 @@ use async_std::io::{prelude::SeekExt, Cursor, Read, Seek, SeekFrom, Write};
 use async_std::sync::{Arc, RwLock};
 use async_trait::async_trait;
 use futures::task::{Context, Poll};
-use futures::{Stream, StreamExt};
+use futures::Stream;
 use std::collections::hash_map::Entry;
 use std::collections::HashMap;
 use std::fmt;
@@ -35,16 +35,6 @@ impl AsyncMemoryFS {
         AsyncMemoryFS {
             handle: Arc::new(RwLock::new(AsyncMemoryFsImpl::new())),
         }
-    }
-
-    async fn ensure_has_parent(&self, path: &str) -> VfsResult<()> {
-        let separator = path.rfind('/');
-        if let Some(index) = separator {
-            if self.exists(&path[..index]).await? {
-                return Ok(());
-            }
-        }
-        Err(VfsErrorKind::Other("Parent path does not exist".into()).into())
     }
 }
 
@@ -211,8 +201,10 @@ impl AsyncFileSystem for AsyncMemoryFS {
             // the root always exists
             return Err(VfsErrorKind::DirectoryExists.into());
         }
-        self.ensure_has_parent(path).await?;
-        let map = &mut self.handle.write().await.files;
+        // the parent check and the insertion happen under one write lock
+        let mut handle = self.handle.write().await;
+        handle.ensure_has_parent(path)?;
+        let map = &mut handle.files;
         let entry = map.entry(path.to_string());
         match entry {
             Entry::Occupied(file) => {
@@ -245,9 +237,10 @@ impl AsyncFileSystem for AsyncMemoryFS {
     }
 
     async fn create_file(&self, path: &str) -> VfsResult<Box<dyn Write + Send + Unpin>> {
-        self.ensure_has_parent(path).await?;
         let content = Arc::new(Vec::<u8>::new());
+        // the parent check and the insertion happen under one write lock
         let mut handle = self.handle.write().await;
+        handle.ensure_has_parent(path)?;
         if let Some(existing) = handle.files.get(path) {
             ensure_file(existing)?;
         }
@@ -308,10 +301,15 @@ impl AsyncFileSystem for AsyncMemoryFS {
     }
 
     async fn remove_dir(&self, path: &str) -> VfsResult<()> {
-        if self.read_dir(path).await?.next().await.is_some() {
+        // the type / emptiness checks and the removal happen under one write lock
+        let mut handle = self.handle.write().await;
+        let file = handle.files.get(path).ok_or(VfsErrorKind::FileNotFound)?;
+        if file.file_type != VfsFileType::Directory {
+            return Err(VfsErrorKind::Other("Not a directory".into()).into());
+        }
+        if handle.has_children(path) {
             return Err(VfsErrorKind::Other("Directory to remove is not empty".into()).into());
         }
-        let mut handle = self.handle.write().await;
         handle
             .files
             .remove(path)
@@ -326,6 +324,28 @@ struct AsyncMemoryFsImpl {
 }
 
 impl AsyncMemoryFsImpl {
+    /// Checks (under the caller's lock) that the parent of `path` is an existing directory
+    fn ensure_has_parent(&self, path: &str) -> VfsResult<()> {
+        let separator = path.rfind('/');
+        if let Some(index) = separator {
+            if let Some(parent) = self.files.get(&path[..index]) {
+                if parent.file_type == VfsFileType::Directory {
+                    return Ok(());
+                }
+                return Err(VfsErrorKind::Other("Parent path is not a directory".into()).into());
+            }
+        }
+        Err(VfsErrorKind::Other("Parent path does not exist".into()).into())
+    }
+
+    /// Returns true if any entry lives below the directory `path`
+    fn has_children(&self, path: &str) -> bool {
+        let prefix = format!("{}/", path);
+        self.files
+            .keys()
+            .any(|candidate| candidate.starts_with(&prefix))
+    }
+
     pub fn new() -> Self {
         let mut files = HashMap::new();
         // Add root directory
